@@ -22,6 +22,7 @@ thorough tier (720 orders for the first twelve 6-alternative cases, 60 sampled a
 """
 import copy
 import hashlib
+import os
 import itertools
 import json
 import math
@@ -116,7 +117,9 @@ KINDS = {
     },
     'Matrix': {
         'cls': 'MatrixGrader', 'opts': [{}, {'answer_shape_mismatch': {'is_raised': False, 'msg_detail': 'shape'}},
-                                       {'answer_shape_mismatch': {'is_raised': False, 'msg_detail': 'type'}}],
+                                       {'answer_shape_mismatch': {'is_raised': False, 'msg_detail': 'type'}},
+                                       {'suppress_matrix_messages': True},
+                                       {'suppress_matrix_messages': True, 'answer_shape_mismatch': {'is_raised': False, 'msg_detail': 'shape'}}],
         'universe': _u((['[1,2]', '[1,2]+[0,0]'], ['[1,2]', '[1, 2]'], 'v2'),
                        (['[2,3]'], ['[2,3]', '[1,1]+[1,2]'], 'v2'),
                        (['[1,1]', '[2,2]/2'], ['[1,1]'], 'v2'),
@@ -127,6 +130,8 @@ KINDS = {
                        (['[[1,2],[3,4]]'], ['[[1,2],[3,4]]'], 'm22'),
                        (['7'], ['7', '3+4'], 's')),
         'outsiders': ['[9,9]', '[0,0]'], 'raising': ['[1,2', '[1,2]+[1,2,3]'],
+        # with suppress_matrix_messages these are graded (zero credit, no message) instead of raising
+        'suppressed': ['[1,2]+[1,2,3]', '[1,2]^2', '[1,2]*[1,2,3]'],
     },
     'SingleList': {
         'cls': 'SingleListGrader', 'opts': [{'subgrader': 'String'}, {'subgrader': 'String', 'ordered': True},
@@ -248,6 +253,15 @@ def gen_case(rng, kind, tier):
         inputs.append({'text': rng.choice(K['partial']), 'cls': 'partial'})
     if K['raising'] and rng.random() < 0.25:
         inputs.append({'text': rng.choice(K['raising']), 'cls': 'raising'})
+    if kind == 'Matrix' and oi != 0:
+        # an input whose shape differs from some alternative's (a message, or a silent zero, per alternative)
+        tags = {K['universe'][k]['tag'] for k in used}
+        other = [k for k in range(nU) if K['universe'][k]['tag'] not in tags and K['universe'][k]['tag'] != 'm22']
+        if other and rng.random() < 0.8:
+            k = rng.choice(other)
+            inputs.append({'text': rng.choice(input_spellings(kind, oi, k)), 'cls': k})
+        if K['opts'][oi].get('suppress_matrix_messages') and rng.random() < 0.8:
+            inputs.append({'text': rng.choice(K['suppressed']), 'cls': None})
     rng.shuffle(inputs)
     single = (n == 1 and rng.random() < 0.5)
     return {'kind': kind, 'oi': oi, 'alts': alts, 'wrong_msg': rng.choice(WRONG_MSGS), 'inputs': inputs, 'single': single}
@@ -382,7 +396,11 @@ def direct_earned(case, inp):
         tags = {U[c]['tag'] for a in case['alts'] for c in a['classes']}
         if k is not None:
             tags.add(U[k]['tag'])
-        if tags != {'v2'}:
+        if KINDS[kind]['opts'][case['oi']].get('suppress_matrix_messages'):
+            # shape / type mismatches are graded silently: zero credit, empty message
+            if k is not None and U[k]['tag'] == 'm22':
+                return None                 # a matrix literal as input is refused by the parser (max_array_dim=1)
+        elif tags != {'v2'}:
             return None
     if kind == 'SingleList':
         U = KINDS[kind]['universe']
@@ -435,6 +453,8 @@ class Recorder:
         self.stack = []
         self.frames = []
         self.installed = False
+        self.recent = {}            # id -> result object of earlier check_response calls (kept alive, so ids are unique)
+        self.shared = 0             # results that are the very object an earlier call returned
 
     def install(self):
         from mitxgraders.baseclasses import ItemGrader
@@ -463,6 +483,10 @@ class Recorder:
                     call['exc'] = e
                     raise
                 call['result'] = snap_entry(res)
+                if rec.recent.get(id(res)) is res:
+                    rec.shared += 1
+                elif len(rec.recent) < 50000:
+                    rec.recent[id(res)] = res
                 return res
             had = 'check_response' in g.__dict__
             g.__dict__['check_response'] = check_response
@@ -797,6 +821,135 @@ def check_top(case, perm, shuffles, singles, constructible, res, rec, emit, stat
     return None
 
 
+INTERLEAVE_MSGS = ['see the notes, section 3', '', 'zz']
+
+
+def check_interleaved(case, perms, shuffles_list, singles, res, rec, stats):
+    """graders that differ only in wrong_msg (and listing order), called alternately on the inputs of the case; each
+    result is judged against the configuration of the grader that returned it"""
+    wms = [case['wrong_msg']] + [m for m in INTERLEAVE_MSGS if m != case['wrong_msg']]
+    if wms[0] == '':
+        wms[0], wms[1] = wms[1], wms[0]
+    graders = []
+    for wm, perm, sh in zip(wms, itertools.cycle(perms), itertools.cycle(shuffles_list)):
+        st, g = core.guarded(make_grader, case, perm, sh, wm)
+        if st == 'ret':
+            graders.append((g, wm, perm, sh))
+    for rnd in range(2):
+        for inp in case['inputs']:
+            for g, wm, perm, sh in (graders if rnd == 0 else graders[::-1]):
+                rec.take()
+                st, r = core.guarded(g, None, inp['text'])
+                rec.take()
+                res.oracle_evals += 1
+                stats['interleaved_calls'] += 1
+                if st != 'ret':
+                    continue
+                for name, e in (('singles', singles.get(inp['text'])), ('direct', direct_earned(case, inp))):
+                    if e is None:
+                        continue
+                    bad = judge(r, e, wm)
+                    if bad:
+                        res.witnesses.append(witness(case, 'interleaved', perm, sh, inp,
+                                                     bad + ' [grader with wrong_msg %r, called alternately with graders that differ '
+                                                     'only in wrong_msg %r]' % (wm, [w for w in wms if w != wm]), name,
+                                                     {'returned': snap_entry(r), 'own_wrong_msg': wm,
+                                                      'perms': [list(p) for p in perms], 'shuffles_list': shuffles_list}))
+
+
+# ------------------------------------------------------------------------------------------------
+# perturb-then-probe: the same probes in a fresh interpreter and after the whole ordinary stream of this run
+# ------------------------------------------------------------------------------------------------
+def probe_cases(seed):
+    rng = random.Random(424243 + 97 * seed)
+    out = list(corpus_cases())
+    for kind in KINDS:
+        for oi in range(len(KINDS[kind]['opts'])):
+            for _ in range(40):
+                c = gen_case(rng, kind, 'quick')
+                if c['oi'] == oi:
+                    out.append(c)
+                    break
+    return out
+
+
+def probe_outcomes(seed):
+    """[(probe index, wrong_msg, input text, outcome)] -- deterministic for a seed; outcome = ['ret', grade, msg] | ['exc', class]"""
+    import numpy as np
+    random.seed(seed * 31 + 5)
+    np.random.seed(seed * 31 + 5)
+    out = []
+    for ci, case in enumerate(probe_cases(seed)):
+        n = len(case['alts'])
+        for wm in (case['wrong_msg'], 'probe wrong_msg', ''):
+            st, g = core.guarded(make_grader, case, tuple(range(n)), {}, wm)
+            if st != 'ret':
+                out.append([ci, wm, None, ['exc', type(g).__name__]])
+                continue
+            for inp in case['inputs']:
+                st, r = core.guarded(g, None, inp['text'])
+                if st == 'ret':
+                    out.append([ci, wm, inp['text'], ['ret', repr(r.get('grade_decimal')), r.get('msg')]])
+                else:
+                    out.append([ci, wm, inp['text'], ['exc', type(r).__name__]])
+    return out
+
+
+def same_outcome(x, y):
+    if x[0] != y[0]:
+        return False
+    if x[0] == 'exc':
+        return x[1] == y[1]
+    try:
+        return float(x[1]) == float(y[1]) and x[2] == y[2]
+    except (TypeError, ValueError):
+        return x == y
+
+
+def start_fresh_probes(seed):
+    import subprocess
+    import sys
+    env = dict(os.environ, PYTHONPATH='%s:%s' % (core.REPO, core.VERIF), PYTHONHASHSEED='0')
+    code = ('import sys, json; sys.path.insert(0, %r); sys.path.insert(0, %r); from harness.props import c08; '
+            'sys.stdout.write("@@PROBES " + json.dumps(c08.probe_outcomes(%d)))' % (core.VERIF, core.REPO, seed))
+    try:
+        return subprocess.Popen([sys.executable, '-B', '-c', code], env=env, stdout=subprocess.PIPE, stderr=subprocess.DEVNULL,
+                                text=True, cwd=core.VERIF)
+    except OSError:
+        return None
+
+
+def compare_probes(proc, seed, res, stats):
+    """a probe whose outcome after the run's stream of other graders differs from its outcome in a fresh interpreter"""
+    if proc is None:
+        res.notes.append('fresh-interpreter probes could not be started')
+        return
+    try:
+        out, _ = proc.communicate(timeout=240)
+        fresh = json.loads(out.split('@@PROBES ', 1)[1])
+    except Exception as e:          # noqa - the comparison is an extra; its own failure proves nothing about the code
+        proc.kill()
+        res.notes.append('fresh-interpreter probes unavailable: %s' % type(e).__name__)
+        return
+    after = probe_outcomes(seed)
+    res.oracle_evals += len(after)
+    stats['probes_compared_with_fresh_interpreter'] = len(after)
+    cases = probe_cases(seed)
+    if len(fresh) != len(after):
+        res.notes.append('probe streams differ in length (%d fresh, %d in-process)' % (len(fresh), len(after)))
+    for f, a in zip(fresh, after):
+        if f[:3] == a[:3] and not same_outcome(f[3], a[3]):
+            ci, wm, text = a[0], a[1], a[2]
+            case = dict(cases[ci], wrong_msg=wm)
+            inp = next((i for i in case['inputs'] if i['text'] == text), None)
+            stats['probes_differing'] += 1
+            res.witnesses.append(witness(case, 'probe', tuple(range(len(case['alts']))), {}, inp,
+                                         'the same grader on the same input returns %r after the other graders of this run were '
+                                         'used, but %r in a fresh interpreter: the result does not depend on this grader\'s '
+                                         'alternatives and wrong_msg alone' % (a[3], f[3]), 'fresh-interpreter',
+                                         {'after_history': a[3], 'fresh': f[3], 'seed': seed}))
+
+
 def sub_term(frame):
     if frame.get('answers') is None:
         return None
@@ -965,6 +1118,7 @@ def run(ctx):
     stats = new_stats()
     rec = Recorder()
     stats['rec'] = rec
+    fresh_proc = start_fresh_probes(seed)
     rec.install()
     terms = []
     POOL.__init__()
@@ -1007,6 +1161,10 @@ def run(ctx):
                     terms.append(t)
                     emitted += 1
                 stats['graders_built'] += 1
+            if constructible:
+                k = min(3, len(perms))
+                check_interleaved(case, [rng.choice(perms) for _ in range(k)],
+                                  [shuffles_for(rng, case, plain=False) for _ in range(k)], singles, res, rec, stats)
             # as subgrader
             if constructible:
                 for mode in ('list-ordered', 'list-unordered', 'slg-sub'):
@@ -1018,6 +1176,9 @@ def run(ctx):
                         check_sub(case, mode, ps, shs, singles, res, rec, stats, True, rng.randrange(8))
     finally:
         rec.uninstall()
+    compare_probes(fresh_proc, seed, res, stats)
+    stats['check_response_results_that_are_an_earlier_calls_object'] = rec.shared
+    rec.recent.clear()
     sub_terms = stats.pop('sub_terms')
     stats.pop('rec', None)
     # de-duplicate identical sub terms (unordered list graders repeat the same check many times)
@@ -1048,6 +1209,8 @@ def run(ctx):
     res.distribution['coq_case_bytes'] = total_bytes
     res.distribution['coq_shard_size'] = shard
     header = HEADER + POOL.header()
+    if ctx.get('skip_coq'):
+        return res
     n, failing, errors = core.eval_agreement('c08', header, 'agree', terms, shard=shard, case_type='case')
     # a case file whose coqc was killed (memory pressure on a shared machine: exit 137, no output) says nothing about
     # agreement: re-evaluate those shards, split and one after the other; a genuine Coq error is kept as an error
@@ -1101,6 +1264,16 @@ def replay(w):
         finally:
             rec.uninstall()
         return bool(res.witnesses), 'empty-configuration cases: %r' % ([x['what'] for x in res.witnesses],)
+    if kind == 'probe':
+        r2 = run({'tier': 'quick', 'seed': int(w.get('seed', 0)), 'escalate': False, 'model_built': False, 'skip_coq': True})
+        hits = [x for x in r2.witnesses if x.get('kind') == 'probe']
+        same = [x for x in hits if x.get('key') == w.get('key')]
+        if same or hits:
+            x = (same or hits)[0]
+            return True, ('%s(answers=%r, wrong_msg=%r, **%r) on input %r: %s' %
+                          (KINDS[x['case']['kind']]['cls'], build_answers(x['case'], tuple(x['perm']), {}), x['case']['wrong_msg'],
+                           KINDS[x['case']['kind']]['opts'][x['case']['oi']], (x.get('input') or {}).get('text'), x['what']))
+        return False, 'every probe agrees with its fresh-interpreter outcome after the perturbing stream (seed %s)' % w.get('seed', 0)
     if kind == 'config':
         invalid_config_cases(random.Random(0), res, stats)
         return bool(res.witnesses), 'invalid-credit cases: %r' % ([x['what'] for x in res.witnesses][:3],)
@@ -1111,6 +1284,8 @@ def replay(w):
         singles, constructible = call_singles(case, res)
         if kind == 'top':
             check_top(case, tuple(w['perm']), w.get('shuffles') or {}, singles, constructible, res, rec, False, stats)
+        elif kind == 'interleaved':
+            check_interleaved(case, [tuple(p) for p in w['perms']], w['shuffles_list'], singles, res, rec, stats)
         else:
             case1 = dict(case, inputs=w.get('inputs_used') or case['inputs'])
             singles, constructible = call_singles(case1, res)
